@@ -180,6 +180,44 @@ fn check_pair(run: &Run, t: &mut Tally, ps: &str, p: &Pattern, a: &str, b: &str)
     }
 }
 
+/// Two calls around an in-place rewrite of one buffer: content `n1`, a call, content `n2`
+/// (same length, same allocation), another call.  shape bit 0 / bit 1 = the buffer is the
+/// first argument in the first / second call.  Both results are judged on the contents.
+fn check_reuse(run: &Run, t: &mut Tally, ps: &str, p: &Pattern, fixed: &str, n1: &str, n2: &str, shape: u8, buf: &mut String) {
+    t.evals += 2;
+    t.validated += 2;
+    let case = || json!({"pattern": ps, "fixed": fixed, "first_content": n1, "second_content": n2, "shape": shape});
+    let mut results: Vec<(Option<String>, String)> = vec![];
+    for (k, content) in [n1, n2].iter().enumerate() {
+        buf.clear();
+        buf.push_str(content);
+        let buffer_first = shape >> k & 1 == 1;
+        let got = guard(|| if buffer_first { p.best_match(buf.as_str(), fixed) } else { p.best_match(fixed, buf.as_str()) }.map(|s| s.to_string()));
+        match got {
+            Ok(g) => results.push((g, content.to_string())),
+            Err(m) => {
+                t.violation(Violation::new("reuse", case(), json!("returns"), json!(format!("panic: {}", m)), "best_match panicked"));
+                return;
+            }
+        }
+    }
+    for (k, (got, content)) in results.iter().enumerate() {
+        let want = model_winner(ps, &[fixed, content.as_str()], LetterWeight::Rank);
+        if got.as_deref() == want {
+            continue;
+        }
+        let alt = model_winner(ps, &[fixed, content.as_str()], LetterWeight::AsciiLower);
+        if got.as_deref() == alt && run.finding_open(FINDING) {
+            t.known(FINDING, case);
+        } else {
+            t.violation(Violation::new("reuse", case(), json!({"call": k + 1, "winner": want}), json!(got), "the result of a call depends on the contents of its arguments only, not on what the same buffer held during an earlier call"));
+        }
+        return;
+    }
+    t.outcome("reuse/content-only");
+    t.nontrivial += 1;
+}
+
 fn check_list(run: &Run, t: &mut Tally, ps: &str, p: &Pattern, list: &[&str]) {
     let case = json!({"pattern": ps, "list": list});
     let mut calls = 0u64;
@@ -232,6 +270,10 @@ fn replay(run: &Run, doc: &Value) -> Option<Violation> {
     let p = Pattern::new(ps).ok()?;
     let mut t = Tally::new();
     match doc["kind"].as_str() {
+        Some("reuse") => {
+            let mut buf = String::with_capacity(64);
+            check_reuse(run, &mut t, ps, &p, c["fixed"].as_str().unwrap_or(""), c["first_content"].as_str().unwrap_or(""), c["second_content"].as_str().unwrap_or(""), c["shape"].as_u64().unwrap_or(0) as u8, &mut buf);
+        }
         Some("pair") => check_pair(run, &mut t, ps, &p, c["pkg1"].as_str().unwrap_or(""), c["pkg2"].as_str().unwrap_or("")),
         _ => {
             let list: Vec<&str> = c["list"].as_array().map(|a| a.iter().filter_map(|x| x.as_str()).collect()).unwrap_or_default();
@@ -355,6 +397,61 @@ fn main() {
                 }
             });
         }
+    }
+    // candidates that share memory: every pair of prefixes and every pair of suffixes of one buffer
+    // (same start address / same end, different lengths), and one buffer rewritten in place with
+    // other names of the same length between calls (same address and length, different content).
+    // The answer depends on the strings' contents only.
+    {
+        let mut t = Tally::new();
+        let alias_pats: Vec<(String, Pattern)> = ["*", "p-*", "p>=1", "{p,pq}-[0-9]*"].iter().map(|s| (s.to_string(), Pattern::new(s).unwrap_or_else(|e| run.fault(&format!("{}: {}", s, e))))).collect();
+        for base in ["p-1.0nb1.1", "p-2rc1nb3", "pq-3.10.5", "p-1-2.0nb2", "p-10alpha2nb4", "p-1.0.0.0", "p-2nb10nb2"] {
+            let buf = base.to_string();
+            for (ps, p) in &alias_pats {
+                for i in 0..=buf.len() {
+                    for j in 0..=buf.len() {
+                        t.states += 1;
+                        t.transitions += 2;
+                        check_pair(&run, &mut t, ps, p, &buf[..i], &buf[..j]);
+                        check_pair(&run, &mut t, ps, p, &buf[i..], &buf[j..]);
+                    }
+                }
+            }
+        }
+        // in-place rewriting: names grouped by length, written one after the other into one buffer
+        let mut by_len: std::collections::BTreeMap<usize, Vec<&str>> = std::collections::BTreeMap::new();
+        let reuse_names: Vec<String> = POOL.iter().map(|s| s.to_string()).chain(["p-1.1", "p-1.2", "p-2.1", "p-0.9", "q-1.1", "p-1nb1", "p-1nb3", "p-9nb1", "p-1rc1", "p-1pl1", "p-1.a", "p-1.b"].iter().map(|s| s.to_string())).collect();
+        for n in &reuse_names {
+            by_len.entry(n.len()).or_default().push(n.as_str());
+        }
+        let mut reuse_calls = 0u64;
+        for (ps, p) in &alias_pats {
+            for (len, names) in &by_len {
+                if names.len() < 2 {
+                    continue;
+                }
+                let mut buf = String::with_capacity(*len + 8);
+                for fixed in ["p-1.0", "p-2", "q-1"] {
+                    // every ordered pair of contents, the buffer on either side in the call before and
+                    // in the call after the rewrite
+                    for n1 in names.iter() {
+                        for n2 in names.iter() {
+                            if n1 == n2 {
+                                continue;
+                            }
+                            for shape in 0..4u8 {
+                                t.states += 1;
+                                t.transitions += 2;
+                                reuse_calls += 2;
+                                check_reuse(&run, &mut t, ps, p, fixed, n1, n2, shape, &mut buf);
+                            }
+                        }
+                    }
+                }
+            }
+        }
+        run.bound(format!("shared memory: all prefix pairs and suffix pairs of 7 buffers x 4 patterns; {} calls with one buffer rewritten in place between calls", reuse_calls));
+        run.merge(t);
     }
     // numbers beyond the 18-digit domain of the comparison rule, restricted to pairs whose order
     // every faithful reading gives alike: at most one of the two exceeds i64::MAX (so saturating
